@@ -290,9 +290,47 @@ def nav(ctx):
     r.check(out.kind == 'raise' and exception_class_name(out.node) == 'MetaException', 'a non-iterable handle is rejected with MetaException', ni,
             construct=M + 'NavChain.__init__', key='init other', msg='NavChain(<non iterable>) ends with %r' % out)
     ns = repo.func(M + 'navigate_subtype')
-    ok = any(isinstance(n, ast.For) and src(n.iter) == 'metaclass.links' for n in ast.walk(ns)) and \
-        pm.contains('_S = navigate_one(supertype).nav(kind, rel_id)()', ns) and \
-        any(isinstance(n, ast.If) and src(n.test) == 'rel_id != rel_id_candidate' for n in ast.walk(ns))
+    SUP, RID = param_names(ns, skip_self=False)[:2]
+
+    def links_of(e, s, tr):
+        if pm.match('get_metaclass(%s).links' % SUP, e['_X']) is None:
+            return None
+        mk = lambda k, r_: absint.Sym((ast.Name(id=k, ctx=ast.Load()), ast.Name(id=r_, ctx=ast.Load()), ast.Name(id='_any', ctx=ast.Load())))
+        return [mk('K1', 'OTHER'), mk('K2', 'SAME'), mk('K3', 'SAME')]
+
+    def same_rel(e, s, tr):
+        a_, b_ = src(e['_A']), src(e['_B'])
+        other = b_ if a_ in (RID, s.get('rid', RID)) else (a_ if b_ in (RID, s.get('rid', RID)) else None)
+        if other in ('OTHER', 'SAME'):
+            return other == 'SAME'
+        return None
+
+    def nav_call(e, s, tr):
+        k = src(e['_K'])
+        tr.append(('nav', k, src(e['_R'])))
+        return s['related'].get(k, False)
+    ni = absint.Interp(ns, [('_A == _B', same_rel), ('_A != _B', lambda e, s, tr: (None if same_rel(e, s, tr) is None else not same_rel(e, s, tr))),
+                            ('isinstance(%s, int)' % RID, lambda e, s, tr: False), ('not %s' % SUP, lambda e, s, tr: False), (SUP, lambda e, s, tr: True),
+                            ('%s is None' % SUP, lambda e, s, tr: False),
+                            ('navigate_one(%s).nav(_K, _R)()' % SUP, nav_call)],
+                       iters=[('_X', links_of)])
+    ni.pure_calls = {'get_metaclass'}
+    ok = True
+    try:
+        for related, want_navs, want_ret in (({'K2': True, 'K3': True}, ['K2'], 'K2'), ({'K3': True}, ['K2', 'K3'], 'K3'), ({}, ['K2', 'K3'], None)):
+            st_ = {'related': related}
+            out, tr = ni.run(st_)
+            navs = [t[1] for t in tr if t[0] == 'nav']
+            if navs != want_navs or any(t[2] != RID for t in tr if t[0] == 'nav'):
+                ok = False
+            returned = out.kind == 'return' and out.value is not None and not (isinstance(out.value, ast.Constant) and out.value.value is None)
+            if returned != (want_ret is not None):
+                ok = False
+    except AnalysisError:
+        # shape fallback on the normal form
+        nsn = repo.nfunc(M + 'navigate_subtype')
+        ok = any(isinstance(n, ast.For) and pm.match('get_metaclass(%s).links' % SUP, n.iter) is not None for n in ast.walk(nsn)) and \
+            pm.contains('navigate_one(%s).nav(_K, %s)()' % (SUP, RID), nsn)
     r.check(ok, 'subtype navigation tries every link of the given association and returns the first related instance', ns,
             construct=M + 'navigate_subtype', key='subtype', msg='navigate_subtype no longer scans the supertype links of rel_id for a related instance')
     qs = repo.cls(M + 'QuerySet')
